@@ -21,6 +21,7 @@
 #include <cstdlib>
 #include <functional>
 #include <memory>
+#include <mutex>
 #include <thread>
 #include <utility>
 #include <vector>
@@ -404,6 +405,89 @@ class task_group {
 public:
     template<class F> void run(const F &f) { f(); }
     void wait() {}
+};
+
+// ---------------------------------------------------------------- facilities parmcb does not use today
+// A change that starts using one of them must still build and run on the shim (otherwise the schedule checks would end as
+// harness errors). They get the simplest LEGAL semantics - the ones a single worker produces - plus an order choice where the
+// runtime is free; the thread mode (-DVTBB_THREADS) uses real threads / locks so that ThreadSanitizer keeps its meaning.
+template<class Index, class F>
+void parallel_for(Index first, Index last, const F &f) {
+    if (!(first < last)) return;
+    parallel_for(blocked_range<Index>(first, last), [&](const blocked_range<Index> &r) { for (Index i = r.begin(); i != r.end(); ++i) f(i); });
+}
+template<class It, class F>
+void parallel_for_each(It first, It last, const F &f) {
+    std::vector<It> its; for (It i = first; i != last; ++i) its.push_back(i);
+    parallel_for(blocked_range<std::size_t>(0, its.size()), [&](const blocked_range<std::size_t> &r) { for (std::size_t i = r.begin(); i != r.end(); ++i) f(*its[i]); });
+}
+template<class C, class F> void parallel_for_each(C &c, const F &f) { parallel_for_each(c.begin(), c.end(), f); }
+template<class F0, class F1>
+void parallel_invoke(const F0 &f0, const F1 &f1) {
+#ifdef VTBB_THREADS
+    std::thread t(f1); f0(); t.join();
+#else
+    if (vx::choose(2, vx::ORDER) == 0) { f0(); f1(); } else { f1(); f0(); }
+#endif
+}
+template<class F0, class F1, class F2>
+void parallel_invoke(const F0 &f0, const F1 &f1, const F2 &f2) { parallel_invoke(f0, [&]() { parallel_invoke(f1, f2); }); }
+template<class It> void parallel_sort(It first, It last) { std::sort(first, last); }
+template<class It, class Cmp> void parallel_sort(It first, It last, const Cmp &cmp) { std::sort(first, last, cmp); }
+template<class C> void parallel_sort(C &c) { std::sort(c.begin(), c.end()); }
+
+#ifdef VTBB_THREADS
+class spin_mutex { public: void lock() { m_.lock(); } void unlock() { m_.unlock(); } bool try_lock() { return m_.try_lock(); }
+    class scoped_lock { public: scoped_lock() : m_(nullptr) {} explicit scoped_lock(spin_mutex &m) : m_(&m) { m.lock(); } ~scoped_lock() { if (m_) m_->unlock(); } void acquire(spin_mutex &m) { m_ = &m; m.lock(); } void release() { if (m_) { m_->unlock(); m_ = nullptr; } } private: spin_mutex *m_; };
+    private: std::mutex m_; };
+#else
+class spin_mutex { public: void lock() {} void unlock() {} bool try_lock() { return true; }
+    class scoped_lock { public: scoped_lock() {} explicit scoped_lock(spin_mutex &) {} void acquire(spin_mutex &) {} void release() {} }; };
+#endif
+typedef spin_mutex mutex; typedef spin_mutex queuing_mutex; typedef spin_mutex speculative_spin_mutex; typedef spin_mutex null_mutex;
+
+// one instance per "thread": a single instance in explore mode (what one worker sees), one per std::thread in thread mode
+template<class T>
+class enumerable_thread_specific {
+public:
+    enumerable_thread_specific() : init_([]() { return T(); }) {}
+    explicit enumerable_thread_specific(const T &v) : init_([v]() { return v; }) {}
+    template<class F, class = decltype(std::declval<F>()())> explicit enumerable_thread_specific(F f) : init_(f) {}
+    T &local() { bool e; return local(e); }
+    T &local(bool &exists) {
+#ifdef VTBB_THREADS
+        std::lock_guard<std::mutex> g(mu_); auto id = std::this_thread::get_id();
+        for (auto &p : items_) if (p.first == id) { exists = true; return *p.second; }
+        exists = false; items_.emplace_back(id, std::unique_ptr<T>(new T(init_()))); return *items_.back().second;
+#else
+        exists = !items_.empty(); if (items_.empty()) items_.emplace_back(std::this_thread::get_id(), std::unique_ptr<T>(new T(init_()))); return *items_.front().second;
+#endif
+    }
+    std::size_t size() const { return items_.size(); }
+    bool empty() const { return items_.empty(); }
+    void clear() { items_.clear(); }
+    template<class F> T combine(F f) { if (items_.empty()) return init_(); T acc = *items_[0].second; for (std::size_t i = 1; i < items_.size(); ++i) acc = f(acc, *items_[i].second); return acc; }
+    template<class F> void combine_each(F f) { for (auto &p : items_) f(*p.second); }
+    struct iterator { typename std::vector<std::pair<std::thread::id, std::unique_ptr<T>>>::iterator it; T &operator*() const { return *it->second; } T *operator->() const { return it->second.get(); } iterator &operator++() { ++it; return *this; } bool operator!=(const iterator &o) const { return it != o.it; } bool operator==(const iterator &o) const { return it == o.it; } };
+    iterator begin() { return iterator{items_.begin()}; }
+    iterator end() { return iterator{items_.end()}; }
+private:
+    std::function<T()> init_;
+    std::vector<std::pair<std::thread::id, std::unique_ptr<T>>> items_;
+    std::mutex mu_;
+};
+template<class T> class combinable : public enumerable_thread_specific<T> { public: using enumerable_thread_specific<T>::enumerable_thread_specific; };
+
+template<class T>
+class concurrent_queue {
+public:
+    void push(const T &v) { std::lock_guard<std::mutex> g(mu_); q_.push_back(v); }
+    bool try_pop(T &v) { std::lock_guard<std::mutex> g(mu_); if (q_.empty()) return false; v = q_.front(); q_.erase(q_.begin()); return true; }
+    bool empty() const { return q_.empty(); }
+    std::size_t unsafe_size() const { return q_.size(); }
+    void clear() { q_.clear(); }
+private:
+    std::vector<T> q_; std::mutex mu_;
 };
 
 } // namespace tbb
